@@ -13,7 +13,7 @@
           a layer asks for an upstream connection.  dk = what the destination host denotes, decided by the same
           parser: "localhost" | "localhost_case" | "localhost_dot" | "lo4" (127.0.0.1) | "lo4_other" (rest of
           127.0.0.0/8) | "lo6" ("::1") | "lo6_alt" (another spelling of ::1) | "lo_mapped" (::ffff:127.x.y.z) |
-          "any4" (0.0.0.0) | "any6" ("::") | "any6_alt" | "explicit_ip" (an explicit listen address of the
+          "any4" (0.0.0.0) | "any6" ("::") | "any6_alt" | "any_mapped" (::ffff:0.0.0.0) | "explicit_ip" (an explicit listen address of the
           scenario family, spelled as getsockname() spells it) | "explicit_ip_alt" (same address, other
           spelling) | "ip_other" | "name_other";
           ip = id of the explicit listen address the host is numerically equal to (0: none)
@@ -28,7 +28,7 @@ EXTENDS Verif
 MonInit == [bad |-> <<>>, wit |-> {}, socks |-> <<>>, d |-> [dk |-> "", port |-> 0, tp |-> "", ip |-> 0], pending |-> FALSE]
 
 LoopbackDest == {"localhost", "localhost_case", "localhost_dot", "lo4", "lo4_other", "lo6", "lo6_alt", "lo_mapped"}
-WildcardDest == {"any4", "any6", "any6_alt"}
+WildcardDest == {"any4", "any6", "any6_alt", "any_mapped"}
 LoopOrAll(s) == s.lk \in {"loop4", "loop6", "any4", "any6"}
 
 \* the statement: destination d denotes listening socket s (same port, same transport, and ...)
@@ -37,7 +37,8 @@ Denotes(d, s) ==
   /\ \/ s.lk \in {"ip4", "ip6"} /\ d.ip # 0 /\ d.ip = s.ip      \* its explicit listen address
      \/ LoopOrAll(s) /\ d.dk \in LoopbackDest                   \* any loopback address or name when listening on
                                                                 \*   loopback or all interfaces
-     \/ LoopOrAll(s) /\ d.dk \in WildcardDest                   \* the wildcard address itself
+     \/ d.dk \in WildcardDest                                   \* the wildcard address itself (unconditional in the
+                                                                \*   statement: however the listener is bound)
 Hits(m) == { i \in 1..Len(m.socks) : Denotes(m.d, m.socks[i]) }
 First(S) == CHOOSE i \in S : \A j \in S : i <= j
 \* signature of a violation: how the socket is bound, whether its mode serves both transports, what the host denotes
@@ -61,7 +62,10 @@ MonStep(m, ev) ==
     [] ev.k = "hook" ->
          [m1 EXCEPT !.wit = @ \cup
             (IF Hits(m) # {} /\ ev.err = "destination_unknown"
-             THEN {"self_refused", "self_refused_" \o m.d.dk} ELSE {})
+             THEN {"self_refused", "self_refused_" \o m.d.dk}
+                  \cup (IF m.d.dk \in WildcardDest /\ ~LoopOrAll(m.socks[First(Hits(m))])
+                        THEN {"self_refused_wildcard_explicit_listener"} ELSE {})
+             ELSE {})
             \cup (IF Hits(m) = {} /\ ev.err = "none" THEN {"other_let_through"} ELSE {})
             \cup (IF Hits(m) = {} /\ ev.err = "destination_unknown" THEN {"other_refused"} ELSE {})]
     [] ev.k = "connect" -> [m1 EXCEPT !.wit = @ \cup {"connect_attempted"}]
